@@ -181,6 +181,9 @@ pub(crate) struct Chunk {
     instructions: Vec<(Instruction, Vec<Span>)>,
     /// The template name so we can point to the right place for error messages
     pub name: String,
+    /// The instructions as compiled, before `optimize` ran
+    #[cfg(tera_verif)]
+    verif_pre: Option<Vec<(Instruction, Vec<Span>)>>,
 }
 
 impl Chunk {
@@ -188,6 +191,8 @@ impl Chunk {
         Self {
             instructions: Vec::with_capacity(256),
             name: name.to_owned(),
+            #[cfg(tera_verif)]
+            verif_pre: None,
         }
     }
 
@@ -210,12 +215,26 @@ impl Chunk {
         self.instructions.len()
     }
 
+    /// JSON listing of the chunk as it was before `optimize` ran
+    #[cfg(tera_verif)]
+    pub(crate) fn verif_json_pre(&self) -> String {
+        match &self.verif_pre {
+            Some(pre) => Self::verif_json_of(pre),
+            None => "[]".to_string(),
+        }
+    }
+
     /// JSON listing of the chunk: opcode, operands, const class, span byte ranges
     #[cfg(tera_verif)]
     pub(crate) fn verif_json(&self) -> String {
+        Self::verif_json_of(&self.instructions)
+    }
+
+    #[cfg(tera_verif)]
+    fn verif_json_of(instructions: &[(Instruction, Vec<Span>)]) -> String {
         use crate::verif::json_str;
         let mut out = String::from("[");
-        for (i, (instr, spans)) in self.instructions.iter().enumerate() {
+        for (i, (instr, spans)) in instructions.iter().enumerate() {
             if i > 0 {
                 out.push(',');
             }
@@ -321,8 +340,11 @@ impl Chunk {
     /// so much on the stack in the VM when we can
     pub(crate) fn optimize(&mut self) {
         #[cfg(tera_verif)]
-        if !crate::verif::optimize_enabled() {
-            return;
+        {
+            self.verif_pre = Some(self.instructions.clone());
+            if !crate::verif::optimize_enabled() {
+                return;
+            }
         }
         let mut old_instructions = std::mem::take(&mut self.instructions);
         let mut optimized = Vec::with_capacity(old_instructions.len());
